@@ -57,7 +57,9 @@ Deliverables - write exactly these three files into {out}/ :
    for it to manifest>", "files": [...], "category": "<the theme, in your words>", "demo_without_change": "PASS",
    "demo_with_change": "FAIL", "tests": "<what you ran and saw>"}}
 
-Before finishing: `git -C {wt} stash` -> demo prints PASS; `git -C {wt} stash pop` -> demo prints FAIL; suite
+Before finishing (do NOT use `git stash`: the stash is shared by all worktrees of the repository and other people
+work in sibling worktrees): `git -C {wt} diff > /tmp/{sid}.p; git -C {wt} apply -R /tmp/{sid}.p` -> demo prints PASS;
+`git -C {wt} apply /tmp/{sid}.p` -> demo prints FAIL; suite
 unchanged.  Leave the change applied in the worktree.  Answer with a five-line summary only.
 """
 
@@ -83,7 +85,7 @@ def main():
                            stdout=subprocess.DEVNULL, stderr=subprocess.DEVNULL)
         p = PROPS[pid]
         open(f"{outd}/prompt.txt", "w").write(TEMPLATE.format(
-            wt=wt, out=outd, pid=pid, title=p["title"], statement=p["statement"], theme=theme, earlier=earlier(pid)))
+            wt=wt, out=outd, sid=sid, pid=pid, title=p["title"], statement=p["statement"], theme=theme, earlier=earlier(pid)))
         print(sid, wt, outd)
 
 
